@@ -17,6 +17,8 @@ def run(chk, prog, tier):
     SUCC.branch_type_rule(chk, tab)
     TR.t3_siblings(chk, tab, rule="CC", parts=("cc",))
     n = SUCC.succ_rule(chk, tab, prog, only={("type", "CONTROL_FLOW")})
+    from valib import rel8 as REL8
+    REL8.rel8_rule(chk, prog)
     chk.floor("branch rows", sum(1 for r in tab.rows[3:-1] if branch(r)), 43)
     chk.floor("branch rows matched against the reference", matched, 43)
     chk.floor("successor obligations", n, 19)
@@ -25,5 +27,6 @@ def run(chk, prog, tier):
         "indirect form (opcode, condition code, imm8 marker, /digit), displacement rows are typed CONTROL_FLOW, and "
         "for every row the `key += is_short` increment can fire from, the next row is the rel8 twin of the same "
         "mnemonic (or an exact duplicate where no short form exists). Increment sites and their guards are "
-        "enumerated from the AST. NOT decided: the short/long decision and the rel8 range test on the value "
-        "(line_to_instr), displacement emission.")
+        "enumerated from the AST. The short/long decision is covered by a value-set analysis (REL8): the set of displacement "
+        "values for which the short flag reaches the key increment is computed path-sensitively and must lie inside the "
+        "rel8-representable values, and `long` must exclude it. NOT decided: displacement emission, the 32-bit truncation.")
